@@ -289,6 +289,7 @@ def run(c):
             c.obligation("histories-order-sensitive:" + tag, False,
                          "only %d load histories in which the order of the merged rules is observable (need >= 3)" % nsens)
         ops_seen = set()
+        other_pkg_custom = []
         for cs in cases:
             c.count()
             inp = {"case": cs["name"], "kind": cs["kind"], "seed": c.seed, "rules_path": cs.get("rules_path"),
@@ -358,6 +359,13 @@ def run(c):
                     c.coverage["loads_of_a_shared_ir_value"] = c.coverage.get("loads_of_a_shared_ir_value", 0) + (res.get("reloads") or 0)
                     c.coverage.setdefault("reports_compared", 0)
                     c.coverage["reports_compared"] += res["nreports"]
+                    # rules files that declare another package than the one Load checks them under, with reports that
+                    # went through custom functions (Filter(fn) / Do(fn)) on both paths
+                    mpk = re.search(r"^package (\w+)", read_text(cs["rules_path"]) or "", re.M)
+                    if mpk and mpk.group(1) != "gorules" and res.get("ncustom"):
+                        other_pkg_custom.append((cs["name"], mpk.group(1), res["ncustom"]))
+                        c.coverage["custom_function_reports_of_files_declaring_another_package"] = \
+                            c.coverage.get("custom_function_reports_of_files_declaring_another_package", 0) + res["ncustom"]
             # ---- K: model vs implementation
             if m is not None:
                 printed_same, eval_ok, dom = m
@@ -376,6 +384,9 @@ def run(c):
                 c.sample({"case": cs["name"], "kind": cs["kind"], "ops": cs.get("ops"), "printed_bytes": len(cs.get("text") or ""),
                           "deep_equal": res["deep_equal"], "deep_equal_norm": res["deep_equal_norm"], "loaded": res.get("loaded"),
                           "reports": res.get("nreports")})
+        if results:
+            c.obligation("generator:package-clauses:" + tag, len(other_pkg_custom) >= 3,
+                         "rules files declaring a package other than gorules whose custom-function rules reported through Load and LoadFromIR: %r (need >= 3)" % (other_pkg_custom,))
         c.coverage.setdefault("cases", 0)
         c.coverage["cases"] += len(cases)
         c.coverage.setdefault("model_vs_impl_cases", 0)
